@@ -342,6 +342,13 @@ pub fn run(ctx: &Ctx) {
 
     run.space(&ws_class(), &[NEUTRAL, DEFAULT, 127], false);
     run.space(&mid_bom(t.pick(3, 4)), &[NEUTRAL, DEFAULT, 127, NEUTRAL | TRIM_START | TRIM_END], false);
+    // S: size thresholds (names, texts, bodies, runs of delimiter look-alikes, nesting depth, sibling
+    // and attribute counts stretched through every small size and around every power of two)
+    run.space(
+        &stretch("S.stretch", STRETCH_READER, t.pick(40, 160), t.pick(10, 16), t.pick(7, 10)),
+        &[NEUTRAL, DEFAULT, 127, NEUTRAL | TRIM_START | TRIM_END],
+        false,
+    );
 
     // the same lexical oracle for the streaming (buffered) reader: its scanners carry state across
     // refills, so a lexing bug may exist only there (schedules in depth are C02's business)
@@ -352,6 +359,14 @@ pub fn run(ctx: &Ctx) {
         run.space(&raw(&format!("A.raw.buffered(piece={})", piece), SIGMA_M, t.pick(5, 6)), &four, false);
         run.space(&atoms(&format!("C.atoms.buffered(piece={})", piece), ATOMS_C, t.pick(3, 4)), &four, false);
         run.space(&mid_bom(t.pick(2, 3)), &four, false);
+    }
+    for piece in t.pick(&[1usize, 7, 64][..], &[1usize, 2, 7, 64, 1000, 8192][..]) {
+        run.script = Some(Script::pieces(*piece));
+        run.space(
+            &stretch(&format!("S.stretch.buffered(piece={})", piece), STRETCH_READER, t.pick(20, 80), t.pick(10, 14), t.pick(5, 8)),
+            &four,
+            false,
+        );
     }
     run.script = None;
 
